@@ -205,8 +205,8 @@ class Engine:
                     elif ins.op in ('call', 'invoke'):
                         cal = ins.x['callee']
                         if cal.k not in ('local', 'global'): ins.x['callee'] = kc(cal)
-                    elif ins.op == 'load': ins.c = (self.lay.sa(ins.ty)[0], ins.ty.k == 'ptr')
-                    elif ins.op == 'store': ins.c = self.lay.sa(ins.ops[0].t)[0]
+                    elif ins.op == 'load': ins.c = ('agg', ins.ty) if ins.ty.k in ('struct', 'named', 'arr', 'vec') else (self.lay.sa(ins.ty)[0], ins.ty.k == 'ptr')
+                    elif ins.op == 'store': ins.c = ('agg', ins.ops[0].t) if ins.ops[0].t.k in ('struct', 'named', 'arr', 'vec') else self.lay.sa(ins.ops[0].t)[0]
                     elif ins.op == 'switch':
                         d, cases = ins.x
                         ins.c = {(cv.a & ((1 << cv.t.a) - 1)): lb for cv, lb in cases}
@@ -293,6 +293,8 @@ class Engine:
         if v.k == 'zero' and v.t.k == 'int': return 0
         if v.k == 'zero' and v.t.k == 'ptr': return NULL
         if v.k == 'kconst': return v.a
+        if v.k == 'agg': return [self.const(e) for e in v.a]
+        if v.k == 'zero': return None
         raise NotImplementedError('const ' + v.k)
 
     def gep_calc(self, bt, base, idx):
@@ -403,6 +405,28 @@ class Engine:
             bb = z3.BitVecVal(b, 8) if type(b) is int else b
             e = bb if e is None else z3.Concat(e, bb)
         return z3.simplify(e)
+
+    def agg_fields(self, t):
+        r = t
+        if r.k == 'named': r = self.m.types[r.a]
+        if r.k == 'struct': return [self.lay.field_off(r, i) for i in range(len(r.a))]
+        if r.k == 'vec': r = T('arr', r.a, r.b)
+        es = self.lay.sa(r.b)[0]
+        return [(i * es, r.b) for i in range(r.a)]
+
+    def load_agg(self, st, p, t):
+        out = []
+        for off, ft in self.agg_fields(t):
+            q = (p[0], p[1] + off) if type(p) is tuple else p
+            if ft.k in ('struct', 'named', 'arr'): out.append(self.load_agg(st, q, ft))
+            else: out.append(self.load(st, q, self.lay.sa(ft)[0], ft.k == 'ptr'))
+        return out
+
+    def store_agg(self, st, p, t, v):
+        for (off, ft), x in zip(self.agg_fields(t), v):
+            q = (p[0], p[1] + off) if type(p) is tuple else p
+            if ft.k in ('struct', 'named', 'arr'): self.store_agg(st, q, ft, x if x is not None else self.agg_default(ft))
+            else: self.store(st, q, x if x is not None else 0, self.lay.sa(ft)[0])
 
     def alloc(self, st, size, kind, name=''):
         oid = st.next_obj; st.next_obj += 1
@@ -639,15 +663,21 @@ class Engine:
         if ins.x is not None and ins.x not in NOSCHED_ORD and self.mt_point(st, work, fr): return
         v = ins.ops[0]; p = fr.loc[v.a] if v.k == 'local' else v.a
         if self.shared_points and len(st.threads) > 1 and ins.x is None and self.shared_point(st, work, fr, p): return
-        fr.loc[ins.res] = self.load(st, p, ins.c[0], ins.c[1]); fr.ip += 1
+        if ins.c[0] == 'agg': fr.loc[ins.res] = self.load_agg(st, p, ins.c[1])
+        else: fr.loc[ins.res] = self.load(st, p, ins.c[0], ins.c[1])
+        fr.ip += 1
 
     def i_store(self, st, work, fr, ins):
         if ins.x is not None and ins.x not in NOSCHED_ORD and self.mt_point(st, work, fr): return
         v = ins.ops[0]; x = fr.loc[v.a] if v.k == 'local' else v.a
         v = ins.ops[1]; p = fr.loc[v.a] if v.k == 'local' else v.a
         if self.shared_points and len(st.threads) > 1 and ins.x is None and self.shared_point(st, work, fr, p): return
-        if x is None: x = 0  # aggregate zero/undef stores are not produced by clang -O1 for our code
-        self.store(st, p, x, ins.c); fr.ip += 1
+        if type(ins.c) is tuple:
+            self.store_agg(st, p, ins.c[1], x if x is not None else self.agg_default(ins.c[1]))
+        else:
+            if x is None: x = 0
+            self.store(st, p, x, ins.c)
+        fr.ip += 1
 
     def i_gep(self, st, work, fr, ins):
         base = self.val(fr, ins.ops[0]); idx = []
@@ -758,7 +788,7 @@ class Engine:
         r = t
         if r.k == 'named': r = self.m.types[r.a]
         if r.k == 'struct': return [self.agg_default(x) for x in r.a]
-        if r.k == 'arr': return [self.agg_default(r.b) for _ in range(r.a)]
+        if r.k == 'arr' or r.k == 'vec': return [self.agg_default(r.b) for _ in range(r.a)]
         return NULL if r.k == 'ptr' else 0
 
     def i_insertvalue(self, st, work, fr, ins):
